@@ -341,6 +341,7 @@ func c04Context() map[string]any {
 			"web":   map[string]any{"image": "nginx"},
 			"db":    map[string]any{"image": "postgres"},
 			"cache": map[string]any{"image": "redis"},
+			"mq":    map[string]any{"image": "rabbitmq"},
 		},
 		"networks": map[string]any{"front": map[string]any{}, "back": map[string]any{}},
 		"volumes":  map[string]any{"data": map[string]any{}, "vol": map[string]any{}},
@@ -490,6 +491,7 @@ func (g *c04o) splitDeep(n int) c04Split {
 var c04KVPaths = [][]string{
 	{"services", "web", "environment"}, {"services", "web", "labels"}, {"services", "web", "annotations"}, {"services", "web", "sysctls"},
 	{"services", "web", "build", "args"}, {"services", "web", "build", "labels"}, {"services", "web", "deploy", "labels"},
+	{"services", "web", "build", "additional_contexts"},
 	{"networks", "front", "labels"}, {"volumes", "data", "labels"},
 }
 
@@ -538,8 +540,13 @@ func (g *c04o) spellKV(keys []string, m map[string]*string, allowTyped bool) any
 func (g *c04o) splitKV(n int) c04Split {
 	path := c04KVPaths[g.r.Intn(len(c04KVPaths))]
 	isEnv := path[len(path)-1] == "environment"
+	isCtx := path[len(path)-1] == "additional_contexts"
 	keys := []string{"A", "B", "C", "D", "E_F"}
 	vals := []string{"1", "v", "", "x y", "true", "1.5", "a=b"}
+	if isCtx {
+		// values are build contexts (paths or URLs); a non-string value is C01's absContextPath finding: keep strings
+		vals = []string{"./ctx", "./other", "docker-image://alpine", "https://example.com/r.git", "/abs/ctx"}
+	}
 	parts := make([]map[string]*string, n+1)
 	order := make([][]string, n+1)
 	final := map[string]*string{}
@@ -583,7 +590,7 @@ func (g *c04o) splitKV(n int) c04Split {
 			}
 			continue
 		}
-		s.Parts = append(s.Parts, g.spellKV(order[i], parts[i], true))
+		s.Parts = append(s.Parts, g.spellKV(order[i], parts[i], !isCtx))
 	}
 	tm := map[string]any{}
 	for _, k := range finalKeys {
@@ -912,18 +919,47 @@ func (g *c04o) envFileEntry() c04Entry {
 	return c04Entry{raw: m, key: p}
 }
 
+// a short-syntax port range: one item in the file, one entry per port after canonicalisation (each of them keyed)
+func (g *c04o) portRange() ([]any, []c04Entry) {
+	lo := []int{8080, 9000}[g.r.Intn(2)]
+	tlo := []int{80, 8080}[g.r.Intn(2)]
+	w := 1 + g.r.Intn(2)
+	proto := g.str("tcp", "tcp", "udp")
+	raw := fmt.Sprintf("%d-%d:%d-%d", lo, lo+w, tlo, tlo+w)
+	if proto != "tcp" {
+		raw += "/" + proto
+	}
+	var es []c04Entry
+	for i := 0; i <= w; i++ {
+		one := fmt.Sprintf("%d:%d", lo+i, tlo+i)
+		if proto != "tcp" {
+			one += "/" + proto
+		}
+		es = append(es, c04Entry{raw: one, key: fmt.Sprintf(":%d:%d/%s", lo+i, tlo+i, proto)})
+	}
+	return []any{raw}, es
+}
+
 func (g *c04o) splitKeyed(n int) c04Split {
 	type kd struct {
 		path []string
-		gen  func() c04Entry
+		gen  func() ([]any, []c04Entry)
+	}
+	one := func(f func() c04Entry) func() ([]any, []c04Entry) {
+		return func() ([]any, []c04Entry) { e := f(); return []any{e.raw}, []c04Entry{e} }
 	}
 	kinds := []kd{
-		{[]string{"services", "web", "ports"}, g.portEntry},
-		{[]string{"services", "web", "volumes"}, g.volumeEntry},
-		{[]string{"services", "web", "secrets"}, func() c04Entry { return g.mountEntry("secrets") }},
-		{[]string{"services", "web", "configs"}, func() c04Entry { return g.mountEntry("configs") }},
-		{[]string{"services", "web", "devices"}, g.deviceEntry},
-		{[]string{"services", "web", "env_file"}, g.envFileEntry},
+		{[]string{"services", "web", "ports"}, func() ([]any, []c04Entry) {
+			if g.chance(1, 5) {
+				return g.portRange()
+			}
+			return one(g.portEntry)()
+		}},
+		{[]string{"services", "web", "volumes"}, one(g.volumeEntry)},
+		{[]string{"services", "web", "secrets"}, one(func() c04Entry { return g.mountEntry("secrets") })},
+		{[]string{"services", "web", "configs"}, one(func() c04Entry { return g.mountEntry("configs") })},
+		{[]string{"services", "web", "devices"}, one(g.deviceEntry)},
+		{[]string{"services", "web", "env_file"}, one(g.envFileEntry)},
 	}
 	k := kinds[g.r.Intn(len(kinds))]
 	s := c04Split{Path: k.path, Kind: "keyed-later-wins"}
@@ -939,16 +975,27 @@ func (g *c04o) splitKeyed(n int) c04Split {
 		l := []any{}
 		own := map[string]bool{}
 		for c := g.r.Intn(4); c > 0; c-- {
-			e := k.gen()
-			if own[e.key] {
-				continue // one entry per key inside a single file
+			raws, es := k.gen()
+			clash := false
+			for _, e := range es {
+				if own[e.key] {
+					clash = true // one entry per key inside a single file
+				}
 			}
-			own[e.key] = true
-			l = append(l, e.raw)
-			if _, seen := final[e.key]; !seen {
-				order = append(order, e.key)
+			if clash {
+				continue
 			}
-			final[e.key] = c04DeepCopy(e.raw)
+			if len(es) > 1 {
+				s.Kind = "keyed-later-wins+port-range"
+			}
+			l = append(l, raws...)
+			for _, e := range es {
+				own[e.key] = true
+				if _, seen := final[e.key]; !seen {
+					order = append(order, e.key)
+				}
+				final[e.key] = c04DeepCopy(e.raw)
+			}
 		}
 		s.Parts = append(s.Parts, l)
 	}
@@ -964,24 +1011,62 @@ func (g *c04o) splitKeyed(n int) c04Split {
 	return s
 }
 
+// `x-` extensions are replaced as a whole by the later file (never merged key by key)
+func (g *c04o) splitExtension(n int) c04Split {
+	path := [][]string{{"services", "web", "x-ext"}, {"x-top"}, {"networks", "front", "x-net"}, {"services", "web", "deploy", "x-deploy"}}[g.r.Intn(4)]
+	vals := []any{map[string]any{"a": 1, "l": []any{1, 2}}, map[string]any{"a": 2, "b": map[string]any{"c": "d"}}, []any{"p", "q"}, "s", 3,
+		map[string]any{"b": map[string]any{"e": "f"}}, []any{"r"}}
+	s := c04Split{Path: path, Kind: "extension-replace", Target: c04Absent}
+	for i := 0; i <= n; i++ {
+		if g.chance(1, 2) || (i == n && isAbsent(s.Target)) {
+			v := c04DeepCopy(vals[g.r.Intn(len(vals))])
+			s.Parts = append(s.Parts, v)
+			s.Target = c04DeepCopy(v)
+		} else {
+			s.Parts = append(s.Parts, c04Absent)
+		}
+	}
+	return s
+}
+
 // depends_on: list ≡ mapping with the default condition; merged per service, per field
 func (g *c04o) splitDependsOn(n int) c04Split {
 	s := c04Split{Path: []string{"services", "web", "depends_on"}, Kind: "depends_on"}
 	final := map[string]map[string]any{}
 	any_ := false
+	// targeted shape (seeded change C04-1: the default mapping shared by all names of a list-spelled override):
+	// a base that already has depends_on, an override adding two NEW dependencies as a list, a later override
+	// changing only one of them through the mapping spelling
+	pool := []string{"db", "cache", "mq"}
+	g.r.Shuffle(len(pool), func(i, j int) { pool[i], pool[j] = pool[j], pool[i] })
+	shape := n >= 2 && g.chance(1, 3)
 	for i := 0; i <= n; i++ {
-		if g.chance(1, 3) {
+		if !shape && g.chance(1, 3) {
 			s.Parts = append(s.Parts, c04Absent)
 			continue
 		}
 		any_ = true
 		names := []string{}
-		for _, nm := range []string{"db", "cache"} {
+		for _, nm := range []string{"db", "cache", "mq"} {
 			if g.chance(1, 2) {
 				names = append(names, nm)
 			}
 		}
-		if g.chance(1, 2) {
+		asList := g.chance(1, 2)
+		if shape {
+			switch i {
+			case 0:
+				names = pool[:1]
+			case 1:
+				names, asList = pool[1:], true
+			case 2:
+				names, asList = pool[1:2], false
+			default:
+				s.Parts = append(s.Parts, c04Absent)
+				continue
+			}
+		}
+		if asList {
 			l := []any{}
 			for _, nm := range names {
 				l = append(l, nm)
@@ -1414,6 +1499,9 @@ func (g *c04o) oneSplit(n int) c04Split {
 		}
 		return g.splitUlimits(n)
 	case k < 18:
+		if g.chance(1, 2) {
+			return g.splitExtension(n)
+		}
 		return g.splitIpam(n)
 	default:
 		return g.splitTagged(n)
@@ -1585,7 +1673,11 @@ func (g *c04o) splitCase(k int) (c04SplitCase, []c04Split) {
 	var attrs []string
 	var infos []c04SplitInfo
 	for _, s := range splits {
-		attrs = append(attrs, strings.Join(s.Path[2:], ".")+"["+s.Kind+"]")
+		an := pathKey(s.Path)
+		if len(s.Path) > 2 {
+			an = strings.Join(s.Path[2:], ".")
+		}
+		attrs = append(attrs, an+"["+s.Kind+"]")
 		infos = append(infos, c04SplitInfo{Path: pathKey(s.Path), Kind: s.Kind, Labels: c04Labels(s)})
 		if s.Needs["build-context"] != nil && !used["services.web.build"] {
 			c04SetPath(docs[0], []string{"services", "web", "build", "context"}, ".")
